@@ -5,6 +5,7 @@ import (
 	"fmt"
 	"io"
 	"log"
+	"math"
 	"runtime"
 	"strconv"
 	"strings"
@@ -227,8 +228,8 @@ func (p *parser) parseComparison() *proto.Query_Expression {
 	switch p.peek().typ {
 	case itemPlaceholder:
 		placeholder = decodePlaceholder(p.next().val)
-		if placeholder < 1 {
-			p.errorf("invalid placeholder %d; must be 1 or greater", placeholder)
+		if placeholder < 1 || placeholder > math.MaxInt32 {
+			p.errorf("invalid placeholder %d; must be between 1 and %d", placeholder, math.MaxInt32)
 		}
 	case itemValue:
 		value = decodeString(p.next().val)
